@@ -35,6 +35,12 @@ ATTACH = {
     'lib': 'src/lib.rs',
 }
 GSD_ATTACH = {'gsd_lib': 'gsd-parser/src/lib.rs'}
+# private modules whose harness module must be reachable from other modules: (parent file, re-export line)
+REEXPORT = {
+    'fdl_telegram': ('src/fdl/mod.rs', 'pub(crate) use telegram::__verif_kani as __verif_kani_telegram;'),
+    'fdl_token_ring': ('src/fdl/mod.rs', 'pub(crate) use token_ring::__verif_kani as __verif_kani_token_ring;'),
+    'fdl_active': ('src/fdl/mod.rs', 'pub(crate) use active::__verif_kani as __verif_kani_active;'),
+}
 
 
 def load_harnesses():
@@ -71,7 +77,9 @@ def prepare(repo, dest, modules, package='profirust'):
         src = os.path.join(VERIF, 'kani', m + '.rs')
         if not os.path.exists(src):
             raise FileNotFoundError(src)
-        scratch.append(dest, table[m], '#[cfg(kani)]\n#[path = "%s"]\nmod __verif_kani;' % src)
+        scratch.append(dest, table[m], '#[cfg(kani)]\n#[path = "%s"]\npub(crate) mod __verif_kani;' % src)
+        if m in REEXPORT:
+            scratch.append(dest, REEXPORT[m][0], '#[cfg(kani)]\n#[allow(unused_imports)]\n' + REEXPORT[m][1])
     lock = os.path.join(repo, 'Cargo.lock')
     if not os.path.exists(lock):
         lock = '/repo/Cargo.lock'
